@@ -29,7 +29,7 @@ def judge(rep, results, labels, prop_note, python_findings=True):
                               key="python|" + f["what"] + "|" + shape_key(r))
         for rej in r["rejected"]:
             lab = rej["label"]
-            if lab in labels or (lab.startswith("invariant:") and lab in labels):
+            if lab in labels or (set(lab.split("+")) & set(labels)):
                 tot_rej += 1
                 rep.violation("run rejected by TR_Jump at event %s (%s): %s" %
                               (rej.get("at"), lab, str(rej.get("event"))[:300]),
